@@ -7,7 +7,11 @@
  R2 page provenance is carried, not recomputed: the page numbers of a chunk are read from the
     `page` field of the elements of that chunk, and the partitioner stamps each element's page from
     the page loop variable.
-Not decided: exactly-once paragraphs, breadcrumb correctness.
+ R3 breadcrumb stack discipline: when a title arrives, the heading stack is pruned by comparing the *stored level of each
+    entry* with the new title's level (a `retain` whose closure orders the entry's level against the level, or a pop loop that
+    compares the top entry) before the title is pushed. A positional cut (`truncate(level - 1)`, `drain`, `split_off`) assumes
+    levels are dense: with a skipped level a closed sibling stays on the stack and leaks into every later breadcrumb.
+Not decided: exactly-once paragraphs, the breadcrumb values themselves.
 """
 from .. import lib as L
 from .. import flow as FL
@@ -33,6 +37,7 @@ def reads_field(facts, fid, field):
 
 
 def run(ctx):
+    r3_heading_stack(ctx)
     facts = ctx.facts
     roots = [f for f in (D + "rag_chunks", D + "rag_chunks_with", D + "rag_chunks_with_source", D + "rag_chunks_with_source_and_config",
                          D + "rag_chunks_from_elements", D + "rag_chunks_json", D + "rag_chunks_with_pipeline", D + "rag_chunks_with_profile",
@@ -65,3 +70,52 @@ def run(ctx):
         else:
             ctx.violation("R2", "%s:reads-element-page" % L.short(fid), "%s does not read the `page` field of the chunk's elements: page "
                           "provenance is recomputed or constant" % L.short(fid), fn.where())
+
+
+def r3_heading_stack(ctx):
+    from .. import cfg as CF
+    facts = ctx.facts
+    fn = ctx.fn("pipeline::partition::Partitioner::assign_heading_paths", "R3")
+    g = CF.cfg(fn)
+    def on_stack(args):
+        r = L.recv_of(fn, args)
+        return r is not None and fn.locals[r[0]].startswith("std::vec::Vec<(u8,")
+    pushes = [b for b, c, a, d in L.calls_to(fn, ["Vec::<T, A>::push"]) if on_stack(a)]
+    if not ctx.floor("R3", "push onto the heading stack", len(pushes), 1):
+        return
+    key = "assign_heading_paths:stack-pruned-by-level-comparison"
+    good = []
+    positional = []
+    for b, c, a, d, t, u in fn.calls():
+        if not isinstance(c, dict) or not on_stack(a):
+            continue
+        nm = L.short(c.get("p") or "")
+        if nm in ("retain", "retain_mut"):
+            # the closure compares the entry's level (field 0 of its tuple argument) with something
+            clos = [k for k in facts.closures_of.get(fn.id, ()) if ("%s" % fn.line(b)) in (facts.fns[k].file + ":%d" % facts.fns[k].lo)]
+            for k in facts.closures_of.get(fn.id, ()):
+                cf = facts.fns[k]
+                if cf.lo != fn.line(b) and not (cf.lo <= fn.line(b) <= cf.hi):
+                    continue
+                if len(cf.locals) > 2 and "(u8," in cf.locals[2]:
+                    cmps = [st for blk in cf.blocks for st in blk[0] if st[2][0] == "bin" and st[2][1] in ("Lt", "Le", "Gt", "Ge")]
+                    if cmps:
+                        good.append(b)
+        elif nm in ("truncate", "drain", "split_off", "clear", "resize"):
+            positional.append((b, nm))
+        elif nm == "pop":
+            # pop loop: some block of the enclosing loop compares a value read through last()/the stack with the level
+            for h, body in g.loops().items():
+                if b in body and any(L.is_call_to(fn.term(x)[1], ["last", "last_mut"]) for x in body if fn.term(x)[0] == "call" and on_stack(fn.term(x)[2])):
+                    good.append(b)
+    pre = [x for x in good if any(g.dominates(x, pb) for pb in pushes)]
+    if pre and not positional:
+        ctx.ok("R3", key, "entries are removed by comparing their stored level with the new title's level before the push", fn.where(pre[0]))
+    elif positional:
+        ctx.violation("R3", key, "the heading stack is cut positionally (`%s`) before a title is pushed: the number of ancestors kept "
+                      "depends on the new level only, not on the levels of the entries, so when heading levels skip (a 24pt chapter "
+                      "followed by two 14pt headings) the closed sibling stays on the stack and every later element gets it in its "
+                      "heading_path" % positional[0][1], fn.where(positional[0][0]))
+    else:
+        ctx.violation("R3", key, "no pruning of the heading stack by level comparison dominates the push of a new title: closed sections "
+                      "never leave the breadcrumb", fn.where(pushes[0]))
